@@ -63,7 +63,7 @@ func GenRequests(g *tape.Stream, fg *tape.Stream, s *Setup, p *Profile) [][]*Req
 		r := s.Routes[g.Intn(len(s.Routes))]
 		hot = r.Inst[g.Intn(len(r.Inst))]
 		hotChain = r.Index
-		hotMethods = MethodsOf(r, s.AutoHead)
+		hotMethods = MethodsOf(r, r.AutoHead)
 	}
 	maxChain := len(s.Mw) + 8
 	if maxChain > ActionPos {
@@ -90,7 +90,7 @@ func GenRequests(g *tape.Stream, fg *tape.Stream, s *Setup, p *Profile) [][]*Req
 				}
 				if q.Method == "GET" || q.Method == "POST" {
 					// keep most requests on a method the route has
-					ms := MethodsOf(r, s.AutoHead)
+					ms := MethodsOf(r, r.AutoHead)
 					ok := false
 					for _, m := range ms {
 						if m == q.Method {
@@ -101,7 +101,7 @@ func GenRequests(g *tape.Stream, fg *tape.Stream, s *Setup, p *Profile) [][]*Req
 						q.Method = ms[0]
 					}
 				} else if p.KnownChain {
-					q.Method = ms0(MethodsOf(r, s.AutoHead))
+					q.Method = ms0(MethodsOf(r, r.AutoHead))
 				}
 			}
 			if q.Tag == "hot" && p.KnownChain {
